@@ -21,7 +21,7 @@ STRUCT_FIELDS = ("used", "sign", "dp")
 # bn_* operation reads all fields of its const operands.  Static helpers are not counted (see the module comment).
 READER_FIELDS = {"bn_sign": ("sign",), "bn_is_zero": ("used", "dp"), "bn_is_even": ("used", "dp"), "bn_bits": ("used", "dp"),
                  "bn_get_bit": ("used", "dp"), "bn_cmp_abs": ("used", "dp"), "bn_ham": ("used", "dp"), "bn_get_dig": ("dp",)}
-COPY = re.compile(r"^(bn|fp|fb|dv)_copy(_sec|_cond)?$")
+COPY = re.compile(r"^(bn|fp\d*|fb\d*|dv)_copy(_sec|_cond)?$")
 NO_WRITE = re.compile(r"^(bn_grow|bn_null|fp_null|fb_null|bn_new\w*|fp_new|fb_new|bn_make|bn_init|bn_free|fp_free|fb_free|bn_clean)$")
 
 
@@ -33,6 +33,9 @@ def handle_kind(fn, v):
     m = re.match(r"^(fp|fb|dv)_t\b", t)
     if m:
         return "vec", m.group(1) + "_t"
+    m = re.match(r"^(fp\d+|fb\d+)_t\b", t)
+    if m:
+        return "tower", m.group(1) + "_t"
     return None, None
 
 
@@ -63,22 +66,76 @@ def access(fn, e):
     return None, None
 
 
+def component(fn, e):
+    """path of constant subscripts of a tower element expression, outermost object first: a[1][0] -> (1, 0);
+    a non-constant subscript ends the path with "*" (any component from there on); () is the whole element"""
+    e0 = ir.strip_casts(fn.resolve(e))
+    chain = []
+    guard = 0
+    while isinstance(e0, list) and e0 and guard < 30:
+        guard += 1
+        if e0[0] == "x":
+            chain.append(ir.peel(fn, e0[2]))
+            e0 = ir.strip_casts(fn.resolve(e0[1]))
+        elif e0[0] == "k":
+            e0 = e0[2]
+        elif e0[0] == "u" and e0[1] in ("*", "&"):
+            e0 = ir.strip_casts(fn.resolve(e0[2]))
+        elif e0[0] == "v":
+            break
+        else:
+            return ("*",)
+    path = []
+    for idx in reversed(chain):
+        if isinstance(idx, list) and idx[0] == "i":
+            path.append(idx[1])
+        else:
+            k = key(fn, idx)
+            path.append(("s", k) if k is not None else "*")
+    return tuple(path)
+
+
+def overlap(p, q):
+    """do two component paths designate overlapping storage?"""
+    if not isinstance(p, tuple) or not isinstance(q, tuple):
+        return p == q
+    for a, b in zip(p, q):
+        if a == "*" or b == "*":
+            return True
+        sa, sb = isinstance(a, tuple), isinstance(b, tuple)
+        if sa and sb:
+            if a[0] == "old" or b[0] == "old":
+                return False        # an earlier value of a loop index: another element (monotone loops assumed)
+            if a != b:
+                return True         # two different index expressions may coincide
+            continue                # the same index expression: the same element, look deeper
+        if sa or sb:
+            return True             # symbolic (or old) against a constant: may coincide
+        if a != b:
+            return False
+    return True
+
+
 def node_effects(prog, fn, e, outs, ins):
     """(reads {(var, field)}, writes {(var, field)}, copies {(dst var, src var)}) of one CFG element"""
     reads, writes, copies = set(), set(), set()
     kinds = {v: handle_kind(fn, v)[0] for v in set(outs) | set(ins)}
 
-    def rd(v, fld):
+    def rd(v, fld, expr=None):
         if v in ins:
             if kinds[v] == "vec":
                 reads.add((v, "*"))
+            elif kinds[v] == "tower":
+                reads.add((v, component(fn, expr) if expr is not None else ("*",)))
             elif fld is not None:
                 reads.add((v, fld))
 
-    def wr(v, fld, allf=False):
+    def wr(v, fld, allf=False, expr=None):
         if v in outs:
             if kinds[v] == "vec":
                 writes.add((v, "*"))
+            elif kinds[v] == "tower":
+                writes.add((v, component(fn, expr) if expr is not None else ("*",)))
             elif allf:
                 for f in STRUCT_FIELDS:
                     writes.add((v, f))
@@ -90,10 +147,10 @@ def node_effects(prog, fn, e, outs, ins):
             lhs = sub[1] if sub[0] == "=" else sub[2]
             v, fld = access(fn, lhs)
             if v is not None:
-                wr(v, fld)
+                wr(v, fld, expr=lhs)
                 lhs_nodes.add(id(ir.strip_casts(fn.resolve(lhs))))
                 if sub[0] != "=":
-                    rd(v, fld)
+                    rd(v, fld, expr=lhs)
                 elif fld is not None:
                     # X->f = Y->f keeps the value when X is Y: recorded like a copy, for this field
                     r = ir.strip_casts(fn.resolve(sub[2]))
@@ -126,11 +183,14 @@ def node_effects(prog, fn, e, outs, ins):
                 w = engines.callee_writes_arg(prog, fn, name, i)
                 if w:
                     if fld is None:
-                        wr(v, None, allf=True)
+                        wr(v, None, allf=True, expr=a)
                     else:
-                        wr(v, fld)
+                        wr(v, fld, expr=a)
                 # reads: digit vectors handed to anything; struct handles through ->dp, or whole to a public operation
-                if kinds.get(v) == "vec":
+                if kinds.get(v) == "tower":
+                    if not w or True:
+                        rd(v, None, expr=a)
+                elif kinds.get(v) == "vec":
                     rd(v, "*")
                 elif fld == "dp":
                     rd(v, "dp")
@@ -150,7 +210,7 @@ def node_effects(prog, fn, e, outs, ins):
                 rd(v, fld)
         elif sub[0] == "x":
             v, fld = access(fn, sub)
-            if v is not None and id(sub) not in lhs_nodes:
+            if v is not None and id(sub) not in lhs_nodes and kinds.get(v) != "tower":
                 rd(v, fld if fld else None)
     return reads, writes, copies
 
@@ -187,7 +247,7 @@ def hazards(ctx, prog, fn):
             if nd.id in eff:
                 reads, writes, copies = eff[nd.id]
                 for (v, f) in reads:
-                    if v == y and f in st:
+                    if v == y and (f in st or (isinstance(f, tuple) and any(overlap(f, w) for w in st))):
                         calls = [c[1] for c in ir.calls_in(fn, nd.el.e) if c[1]]
                         found.append((x, y, f, nd.line(), first_write.get(f), calls[-1] if calls else "expression"))
                 if (x, y) not in copies:
@@ -195,6 +255,15 @@ def hazards(ctx, prog, fn):
                     for f in new:
                         first_write.setdefault(f, nd.line())
                     out = st | new
+                # a loop index that changes: paths through it now name an element of an earlier iteration
+                wv = engines.written_vars(prog, fn, nd.el.e)
+                if wv and any(isinstance(f, tuple) for f in out):
+                    ren = set()
+                    for f in out:
+                        if isinstance(f, tuple) and any(isinstance(c, tuple) and c[0] == "s" and (engines.key_vars(c[1]) & wv) for c in f):
+                            f = tuple(("old",) if (isinstance(c, tuple) and c[0] == "s" and (engines.key_vars(c[1]) & wv)) else c for c in f)
+                        ren.add(f)
+                    out = frozenset(ren)
             if nd.kind in ("throw",):
                 continue
             for s, l in nd.succ:
@@ -233,12 +302,13 @@ def rule(ctx, prog, chk, in_scope, exceptions, prefix_ok=("selftest",)):
             if k is not None:
                 used.add(k)
                 continue
-            obj = "%s<-%s.%s@%s" % (fn.vars[x]["n"], fn.vars[y]["n"], f, reader)
+            fs = "".join("[%s]" % ("i" if isinstance(c, tuple) else c) for c in f) if isinstance(f, tuple) else str(f)
+            obj = "%s<-%s.%s@%s" % (fn.vars[x]["n"], fn.vars[y]["n"], fs or "whole", reader)
             if obj in flagged:
                 continue
             flagged.add(obj)
             chk.fail("ALIAS-RW", fn, obj, "`%s` (%s) is read at line %s after `%s` was written at line %s: when the output object is that input, the read sees the new value" % (
-                fn.vars[y]["n"], "digits" if f in ("dp", "*") else "->" + f, rl, fn.vars[x]["n"], wl), line=rl)
+                fn.vars[y]["n"], "digits" if f in ("dp", "*") else ("component " + (fs or "whole") if isinstance(f, tuple) else "->" + f), rl, fn.vars[x]["n"], wl), line=rl)
         if npairs and not flagged:
             chk.ok("ALIAS-RW", fn, "pairs", "%d output/input pair(s) of the same type: no input is read in a later statement than a write of the output" % npairs, line=fn.line)
     return n, used
